@@ -147,7 +147,7 @@ def run_scenario(chk, sc, cfgseed, axes, serial, fields, wide=False):
     from amr_kitchen.mandoline import Mandoline
     d, cfg_, lat, flds = c07.build(chk, sc, cfgseed, axes, **(WIDE if wide else {}))
     cn = axes[0]
-    pos = c07.phys_pos(cfg_, lat, sc, cn)
+    pos = c07.phys_pos(cfg_, lat, sc, cn, cfgseed)
     before = alpha.tree_digest(d)
     out = os.path.join(os.path.dirname(d), "slice2d")
     try:
